@@ -64,6 +64,11 @@ main (void)
 	int ch, k ;
 
 	ND_FILL (nd_in, NIT, NDT) ;
+#ifdef CONCRETE_VALUES
+	/* position bookkeeping across staging chunks and channels with magnitudes growing towards the end (the maximum of
+	** every channel lies in the LAST staging chunk); the fully symbolic 2-channel variants give no verdict within budget */
+	for (k = 0 ; k < NIT ; k++) nd_in [k] = (T) (IS_FLOAT_T ? 0.125 * (k + 1) : 1000 * (k + 1)) ;
+#endif
 	ND_FILL (nd_pv, CH, double) ;
 	ND_FILL (nd_pp, CH, i64) ;
 #if IS_FLOAT_T
